@@ -38,14 +38,14 @@ type scenario struct {
 	Inject  string   `json:"inject"` // kill point (stop == inject): "<class>:<k>" = SIGKILL right after the k-th return of a
 	//                                   call of that class (open|write|fsync|close|link|unlink on a data file, fin = FIN
 	//                                   written to nsqd); strace holds the process in delay_exit meanwhile
-	Pc      string   `json:"pc"`     // the FileLogger.tla program counter this kill point stands for
-	SpanMs  int      `json:"span_ms"`
-	StopMs  int      `json:"stop_ms"`
-	Hups    []int    `json:"hups_ms"`
-	Pre     int      `json:"preexisting"`
-	Restart string   `json:"restart"` // "", "term", "kill": after the stop the tool is started again over what is there
-	Foreign int      `json:"foreign_ms"` // >0: at this time somebody else creates, in the output dir, the names of the work files
-	Seed    int64    `json:"seed"`
+	Pc      string `json:"pc"` // the FileLogger.tla program counter this kill point stands for
+	SpanMs  int    `json:"span_ms"`
+	StopMs  int    `json:"stop_ms"`
+	Hups    []int  `json:"hups_ms"`
+	Pre     int    `json:"preexisting"`
+	Restart string `json:"restart"`    // "", "term", "kill": after the stop the tool is started again over what is there
+	Foreign int    `json:"foreign_ms"` // >0: at this time somebody else creates, in the output dir, the names of the work files
+	Seed    int64  `json:"seed"`
 }
 
 type violation struct {
@@ -594,8 +594,8 @@ func runScenario(base string, sc scenario, bin string) (res scenResult) {
 	}
 	if len(missing) > 0 {
 		res.Violations = append(res.Violations, violation{
-			Key:  "inspect:acked-message-missing",
-			What: fmt.Sprintf("%d message(s) nsqd no longer owes are not in any readable output file after stop=%s (first: message %d id %s)", len(missing), sc.Stop, missing[0], ids[missing[0]]),
+			Key:      "inspect:acked-message-missing",
+			What:     fmt.Sprintf("%d message(s) nsqd no longer owes are not in any readable output file after stop=%s (first: message %d id %s)", len(missing), sc.Stop, missing[0], ids[missing[0]]),
 			Scenario: sc, Detail: map[string]interface{}{"missing": missing, "owed": len(owed), "published": sc.NMsgs}})
 	}
 	for _, p := range append(append([]string(nil), prePaths...), foreignPaths...) {
@@ -609,8 +609,8 @@ func runScenario(base string, sc scenario, bin string) (res scenResult) {
 		}
 		if !kept {
 			res.Violations = append(res.Violations, violation{
-				Key:  "inspect:existing-file-overwritten",
-				What: fmt.Sprintf("pre-existing file %s: its content is no longer the beginning of any file in the output/work directories", filepath.Base(p)),
+				Key:      "inspect:existing-file-overwritten",
+				What:     fmt.Sprintf("pre-existing file %s: its content is no longer the beginning of any file in the output/work directories", filepath.Base(p)),
 				Scenario: sc})
 		}
 	}
@@ -645,6 +645,19 @@ func runScenario(base string, sc scenario, bin string) (res scenResult) {
 	if len(model.unknownFin) > 0 {
 		return fail("FIN for ids nobody published: %v", model.unknownFin)
 	}
+	// the black-box verdict of nsqd joins the trace: what it no longer owes must already be inside fsynced prefixes,
+	// so that even the worst power loss FileLoggerAbs allows at the instant of the stop leaves it readable
+	var settled []int
+	for i := 1; i <= sc.NMsgs; i++ {
+		if !owed[i] {
+			settled = append(settled, i)
+		}
+	}
+	if settled == nil {
+		settled = []int{}
+	}
+	model.emit("Settled", "m", settled)
+	model.emit("PowerLoss")
 	res.Events = model.events
 	res.Fins, res.Fsyncs, res.Creates, res.Links = model.nFin, model.nFsync, model.nCreate, model.nLink
 	res.LinkEEXIST, res.OpenEEXIST, res.OpenOld = model.nLinkEEXIST, model.nOpenEEXIST, model.nOpenOld
